@@ -292,7 +292,7 @@ def run_scenario(topo: str, shapes: list[str], dev: dict, crashes: dict | None =
     if line_level:
         line_funcs = [Worker._process_await, Worker._handle_result, Worker._get_desired_result,
                       Worker._process_task_completion, Worker._handle_cancel, Worker._get_next_ready_task,
-                      Worker._add_task, Worker.cancel]
+                      Worker._add_task, Worker.cancel, Worker.recv_incoming]
     try:
         w.start([client_script(s) for s in shapes], line_funcs)
         reason = w.run()
